@@ -316,6 +316,7 @@ func c15(c *Ctx) {
 	}
 	r.Count("framing_decoders", len(singleDecoders))
 	r.Count("framing_encoders", len(encs))
+	errorsExamined(c, "R5.errors-examined", "content framing", []string{"portalwire"}, "portalwire.encodeSingleContent", "portalwire.decodeSingleContent", "portalwire.encodeContents", "portalwire.decodeContents", ".decodeUtpContent", ".encodeUtpContent", ".handleOfferedContents")
 }
 
 func boundStr(v ssa.Value) string {
